@@ -147,6 +147,12 @@ def pass_packing_automaton(repo, rep, rule):
         if sets & MAIN and sets & flags.get("Npu", 0):
             n += 1
             rep.check(bool(inc & MAIN), rule, site, f"row `{nm}` sets the main operation of an NPU pass and is refused once a main operation is packed", f"incompatible flags {show(inc)}")
+    CPU = flags.get("Cpu", 0)
+    for nm, inc, sets, clr in rows:
+        if sets & MAIN and sets & CPU:
+            n += 1
+            rep.check(bool(inc & MAIN), rule, site, f"row `{nm}` sets the main operation of a CPU pass and is refused once a main operation is packed",
+                      f"incompatible flags {show(inc)}: two CPU operators are packed into one pass; the tensor between them is never allocated (offset 0 in the written model, overlapping whatever lives there)")
     mem_rows = [r for r in rows if r[2] & MEMCPY]
     if not mem_rows:
         raise AnalysisError("pass_packing.test_sequence: no row sets Memcpy")
@@ -246,6 +252,22 @@ def clone_completeness(repo, rep, rule):
         n += 1
         rep.check(sl in assigned or sl.lstrip("_") in assigned, rule, site, f"`{sl}` is copied to the clone", f"`{sl}` stays at the default of a fresh Operation: the clone no longer encodes what the original does "
                   "(rounding mode: three of the four half-pixel RESIZE_BILINEAR convolutions lose the AwayZero +1 of their scale records)")
+    # members whose default is a mutable container get a container of their own
+    init = [f_ for f_ in cls.body if isinstance(f_, ast.FunctionDef) and f_.name == "__init__"]
+    mutable = set()
+    if init:
+        for a in ast.walk(init[0]):
+            tg = a.targets[0] if isinstance(a, ast.Assign) and len(a.targets) == 1 else (a.target if isinstance(a, ast.AnnAssign) else None)
+            v_ = getattr(a, "value", None)
+            if isinstance(tg, ast.Attribute) and isinstance(tg.value, ast.Name) and tg.value.id == "self" and isinstance(v_, (ast.List, ast.Dict, ast.Set)):
+                mutable.add(tg.attr)
+    for a in ast.walk(cl):
+        if isinstance(a, ast.Assign) and len(a.targets) == 1 and isinstance(a.targets[0], ast.Attribute) and isinstance(a.targets[0].value, ast.Name) and a.targets[0].value.id == "res" and a.targets[0].attr in mutable:
+            n += 1
+            shared = isinstance(a.value, ast.Attribute) and isinstance(a.value.value, ast.Name) and a.value.value.id == "self"
+            rep.check(not shared, rule, site, f"`{a.targets[0].attr}` (a list / dict member) is copied, not shared (`{str(norm(a.value))[:50]}`)",
+                      f"`{str(norm(a))}`: original and clone share one container: the four half-pixel RESIZE_BILINEAR convolutions, each cloned after `tile_base_offsets_ofm[0] = ..`, all end up with the last offset "
+                      "(three quarters of the interleaved OFM are never written)")
     # setters that read other members
     for f in cls.body:
         if isinstance(f, ast.FunctionDef) and any(isinstance(d, ast.Attribute) and d.attr == "setter" for d in f.decorator_list):
@@ -508,6 +530,33 @@ def consumer_deref_lint(repo, rep, rule, report=True):
         if not hits:
             rep.ok(rule, "ethosu/vela", f"{n} iterations over consumer lists", "every dereference is under a None test")
     return n, hits
+
+
+
+def consumer_truth_lint(repo, rep, rule):
+    """`any(t.consumers())` / `all(..)` / `bool(..)` test the *elements* of a consumer list for truth; the list holds None for 'consumed by
+    the graph itself' (a subgraph output), so a tensor whose only consumer is the graph counts as unconsumed. Emptiness is
+    `len(..) > 0` / the list itself."""
+    import ast
+
+    from ..exprnorm import norm
+
+    n = 0
+    bad = 0
+    for m in repo.core_modules():
+        for q, fn in m.functions.items():
+            for c in ast.walk(fn):
+                if isinstance(c, ast.Call) and isinstance(c.func, ast.Name) and c.func.id in ("any", "all") and len(c.args) == 1:
+                    t = str(norm(c.args[0]))
+                    if t.endswith(".consumers()") or t.endswith(".consumer_list"):
+                        bad += 1
+                        rep.bad(rule, f"ethosu/vela/{m.name}.py:{q}", "emptiness of a consumer list is tested with len(), not with the truth of its elements",
+                                f"`{str(norm(c))}`: the None marker of a subgraph output is falsy: a graph input that is only returned as a graph output loses its start-up placeholder; its live range shrinks and the allocator reuses its memory")
+                if isinstance(c, ast.Call) and isinstance(c.func, ast.Name) and c.func.id == "len" and len(c.args) == 1 and (str(norm(c.args[0])).endswith(".consumers()") or str(norm(c.args[0])).endswith(".consumer_list")):
+                    n += 1
+    if not bad:
+        rep.ok(rule, "ethosu/vela", f"{n} emptiness tests of consumer lists use len()", "no any() / all() over a consumer list")
+    return n
 
 
 def round_half_away(repo, rep, rule):
@@ -1133,7 +1182,7 @@ def binding_stem_lint(repo, rep, rule, modules, report=True):
     return n
 
 
-def swapped_argument_lint(repo, rep, rule, modules, report=True):
+def swapped_argument_lint(repo, rep, rule, modules, report=True, strict=False):
     """A positional argument that is a plain name (or attribute leaf) spelled exactly like one of the callee's parameters sits at
     that parameter's position: `encode_weights(acc, vol, dil, ofm_block_depth, ifm_bitdepth, ...)` for `def encode_weights(acc,
     vol, dil, ifm_bitdepth, ofm_block_depth, ...)` exchanges two ints that every type check accepts. Callees are resolved by
@@ -1171,6 +1220,10 @@ def swapped_argument_lint(repo, rep, rule, modules, report=True):
                     j = params.index(leaf)
                     # a true exchange: the argument named like parameter j sits at i and the one named like parameter i sits at j
                     ok = not (j != i and j < len(leaves) and leaves[j] == params[i])
+                    if strict and j != i:
+                        # one-sided: a variable named exactly like another parameter of the callee sits at this position, and the argument at
+                        # that parameter's own position is not a variable of that name
+                        ok = ok and (j < len(leaves) and leaves[j] == leaf)
                     if report:
                         rep.check(ok, rule, f"ethosu/vela/{mname}.py:{q}", f"{str(norm(c))[:60]}: argument `{leaf}` is passed as parameter `{leaf}` of {tq}",
                                   f"`{leaf}` is passed at the position of parameter `{params[i]}` although {tq} has a parameter named `{leaf}` at position {params.index(leaf) + 1}: two arguments are exchanged")
